@@ -1,5 +1,6 @@
 import json
 import logging
+import os
 import os.path
 from enum import Enum
 
@@ -110,8 +111,12 @@ class TrackingBackend:
 
     def close(self):
         self.ops.close()
-        with open(self._get_state_path(), "w") as state_file:
+        # Write to a temporary file and rename it into place, so that an
+        # interrupted write never leaves a truncated, unreadable state file.
+        tmp_path = self._get_state_path() + ".tmp"
+        with open(tmp_path, "w") as state_file:
             json.dump(self._tracked_jobs, state_file)
+        os.replace(tmp_path, self._get_state_path())
 
     @property
     def target_defaults(self):
